@@ -190,3 +190,19 @@ Proof.
     + intros i Hi. apply zmem_iff. apply H4. assumption.
     + intros b Hb. rewrite forallb_forall. intros t Ht. rewrite (H5 b t Hb Ht). reflexivity.
 Qed.
+
+(* task map <-> queues: a request is in the task map exactly when some queue holds it, and its counter is the number
+   of queues that hold it *)
+Lemma map_iff_queued : forall m t, Inv_m m ->
+  (In (t_id t) (keys (m_tasks m)) <-> exists sq, In sq (m_queues m) /\ In (t_id t) (ids (snd sq))).
+Proof.
+  intros m t Hi. split.
+  - intros H. unfold keys in H. apply in_map_iff in H. destruct H as [[u n] [E Hu]]. cbn [fst] in E.
+    pose proof (inv_count m Hi) as Hc. rewrite Forall_forall in Hc. destruct (Hc (u, n) Hu) as [Hc1 Hc2]. cbn [fst snd] in *.
+    destruct (count_q_pos_in u (m_queues m) ltac:(lia)) as [sq [Hsq Hq]]. exists sq. split; [assumption|].
+    apply in_q_iff in Hq. rewrite <- E. assumption.
+  - intros [sq [Hsq Hq]]. unfold ids in Hq. apply in_map_iff in Hq. destruct Hq as [x [Ex Hx]].
+    destruct (in_queue_key m sq x Hi Hsq Hx) as [n Hn]. rewrite <- Ex. eapply keys_in. eassumption.
+Qed.
+Lemma counter_counts : forall m t n, Inv_m m -> In (t, n) (m_tasks m) -> n = count_q t (m_queues m) /\ 1 <= n.
+Proof. intros m t n Hi H. pose proof (inv_count m Hi) as Hc. rewrite Forall_forall in Hc. apply (Hc (t, n) H). Qed.
